@@ -10,8 +10,11 @@ PROP = dict(
         "sets; frozen hashes under seeds 0 and 1, the model follows seed 0 only",
         "Dict.Equal(non-Dict set) compares the stored value with the other set's value in flipped argument order "
         "(keeps the model structurally recursive; unobservable on canonical forms by equal_symm)",
-        "Relation.EqualRelation is modelled row-by-row with columns matched by name instead of Go's projection of both "
-        "bodies to sorted-name order",
+        "Relation.EqualRelation: both bodies projected to sorted-name order and compared as frozen sets of Values "
+        "(Values.Hash = the cells' hashes chained through the seed); the structural fallback of frozen's comparison "
+        "(consulted only when the XOR of the row hashes is zero) matches columns by name",
+        "UnionSet.Hash XORs the members' Hash(0) of all buckets; a bucket key of a relation subset is the joined sorted "
+        "heading (two headings with the same join cannot both be buckets of a canonical union set)",
         "the construction paths of the generator (where/=>/with/without/++/offset/+>/|/&/&~/<&>/projection) reach the "
         "stated denotation: each pair case also compares the enumerator-level canon of both results with it",
     ],
@@ -21,24 +24,29 @@ PROP = dict(
         "targets: Lit.genLit depth <= 3 over a 3-letter alphabet, integers -2..3, attribute names a,b,c,x; negative pairs "
         "are mutants of the target (leaf change, wrap/unwrap, regrouping of nested sets, offset shift, string<->bytes); "
         "superimposed sequences (KF-superimposed) are not constructed",
-        "observables that run into findings of other properties are split off into cases of their own class: `<`/repr with "
-        "byte arrays (KF-bytes-less, C06), repr/`<` where Less is not a strict weak order (KF-less-inconsistent, C06), `<` on "
-        "sets with two relation buckets (KF-union-less-panic, C06), string `|`/`with` at a non-adjacent index "
-        "(KF-string-with-fallback, C01), a string built from a set literal naming one member twice (KF-string-dup-member, "
-        "c05), byte arrays with gaps (KF-bytes-holes)",
+        "values holding an item/entry tuple directly inside an item/entry tuple are classed KF-seed-threaded-hash "
+        "(ArrayItemTuple/DictEntryTuple.Hash thread the seed unfinished: differently nested tuples hash alike)",
+        "byte-array-shaped sets with gaps are classed KF-bytes-holes (asBytes fills a gap with 0); every other case is "
+        "classed good with all observables (=, {a}={b}, count, dict lookup, repr, <, >, operator context, enumerator "
+        "denotation) - the classes KF-bytes-less, KF-less-inconsistent, KF-union-less-panic, KF-string-with-fallback and "
+        "KF-string-dup-member were dropped after the corresponding repairs were merged",
     ],
-    level_text="Proof: Lean theorems about the representation model (one constructor per Go value type). On canonical forms "
-               "of the proved fragment (numbers, generic/char/byte/item/entry tuples, strings, byte arrays, arrays, booleans, "
-               "generic sets, nested arbitrarily) Equal - every Equal method transliterated, incl. the asymmetric "
-               "GenericTuple/Dict ones and frozen's hash-trusting set comparison - coincides with equality of denotations, "
-               "is symmetric, the repaired Hash is injective up to denotation under every seed (what frozen needs) and "
-               "respects Equal, canonical forms are unique, equal values collapse in a built set / select the same dict "
-               "entry; the modelled constructors (NewTuple, NewOffsetString/Array, String/Array.Without, +>, set builder) "
-               "return canonical forms of the intended denotation (bounded-exhaustive, kernel-evaluated); witness theorems for "
-               "the behaviour before each of the six repairs. Dictionaries, relations and union sets: *_full statements, "
-               "correspondence only. Tied to /repo by evaluating pairs of different construction paths for one denotation "
-               "(and mutants with a different one) and comparing =, {a}={b}, {a,b} count, dict lookup, repr, <, an operator "
-               "context and the enumerator-level denotation.",
+    level_text="Proof: Lean theorems about the representation model (one constructor per Go value type). wf_unique: two "
+               "canonical representations with the same denotation agree (constructor, scalar fields, children up to "
+               "denotation and enumeration/column order) - for ALL representations. On canonical forms of the proved fragment "
+               "- every constructor: numbers, generic/char/byte/item/entry tuples, strings, byte arrays, arrays, dictionaries "
+               "(incl. Dict.Equal against any set), relations, union sets, booleans, generic sets, nested arbitrarily; only "
+               "item/entry tuples as direct children of tuples/arrays/dicts/relation rows are excluded, and necessarily so: the full "
+               "statements are refuted there (hash_injective_full_false, equal_iff_den_full_false; KF-seed-threaded-hash) - Equal (every Equal "
+               "method transliterated, incl. the asymmetric GenericTuple/Dict ones and frozen's hash-trusting set "
+               "comparison) coincides with equality of denotations, is symmetric, the repaired Hash is injective up to "
+               "denotation under every seed (what frozen needs) and respects Equal, equal values collapse in a built set / "
+               "select the same dict entry. The modelled constructors NewOffsetString/Array, String/Array.Without, NewTuple "
+               "and +> return canonical forms of the intended denotation: general theorems by induction (unbounded); the "
+               "set builder bounded-exhaustive (kernel-evaluated). Witness theorems for the behaviour before each of the six "
+               "repairs. Tied to /repo by evaluating pairs of different construction paths for one denotation (and mutants "
+               "with a different one) and comparing =, {a}={b}, {a,b} count, dict lookup, repr, <, an operator context and the "
+               "enumerator-level denotation.",
     design_ref="DESIGN.md section 6, C02",
     env={"HARNESS_TIMEOUT_MS": "20000"},
     watch=["rel.GenericTuple.Equal", "rel.GenericTuple.Hash", "rel.GenericTuple.Canonical", "rel.GenericTuple.With",
